@@ -171,7 +171,7 @@ def _below(v, arg):
         if r is not None and r[1] is arg:
             return True
         ri = v.attrs.get("range_incl")
-        if ri is not None and is_sym(ri[1]) and ri[1].op == "sat_sub" and ri[1].args[0] is arg and ri[1].args[1] == 1 and alo >= 1:
+        if ri is not None and is_sym(ri[1]) and ri[1].op in ("sat_sub", "sub") and len(ri[1].args) == 2 and ri[1].args[0] is arg and ri[1].args[1] == 1 and alo >= 1:
             return True
     return False
 
